@@ -191,29 +191,32 @@ impl<V: Clone> CacheRing<V> {
     pub fn put(&self, key: &str, value: V, cost: f64, size_bytes: usize) {
         let key_hash = Self::hash_key(key);
 
+        // Lookup, slot choice and insert form one critical section (lock order
+        // slots -> index, as in `evict` and `clear`). Choosing the slot before
+        // taking the write locks let two concurrent inserts pick the same free
+        // slot (the second silently dropped the first entry) and let two
+        // concurrent inserts of one new key occupy two slots (the copy the
+        // index does not point to stayed listed by `scan_prefix` after a
+        // delete).
+        let mut slots = self.slots.write();
+        let mut index = self.index.write();
+
         // Check if key already exists and update in place
-        {
-            let existing_slot = self.index.read().get(&key_hash).copied();
-            if let Some(slot_idx) = existing_slot {
-                let mut slots = self.slots.write();
-                if let Some(ref mut entry) = slots[slot_idx] {
-                    if entry.key == key {
-                        entry.value = value;
-                        entry.last_access = Instant::now();
-                        entry.access_count += 1;
-                        entry.cost = cost;
-                        entry.size_bytes = size_bytes;
-                        return;
-                    }
+        if let Some(&slot_idx) = index.get(&key_hash) {
+            if let Some(ref mut entry) = slots[slot_idx] {
+                if entry.key == key {
+                    entry.value = value;
+                    entry.last_access = Instant::now();
+                    entry.access_count += 1;
+                    entry.cost = cost;
+                    entry.size_bytes = size_bytes;
+                    return;
                 }
             }
         }
 
         // Find a slot: either empty or evict lowest-scored
-        let slot_idx = self.find_slot_for_insert();
-
-        let mut slots = self.slots.write();
-        let mut index = self.index.write();
+        let slot_idx = self.find_slot_for_insert(&slots);
 
         // Remove old entry from index if slot was occupied
         if let Some(ref old_entry) = slots[slot_idx] {
@@ -238,8 +241,7 @@ impl<V: Clone> CacheRing<V> {
         drop(slots);
     }
 
-    fn find_slot_for_insert(&self) -> usize {
-        let slots = self.slots.read();
+    fn find_slot_for_insert(&self, slots: &[Option<CacheEntry<V>>]) -> usize {
         let scorer = EvictionScorer::new(self.strategy);
         let now = Instant::now();
 
@@ -249,7 +251,6 @@ impl<V: Clone> CacheRing<V> {
         for (idx, slot) in slots.iter().enumerate() {
             match slot {
                 None => {
-                    drop(slots);
                     return idx; // Empty slot, use immediately
                 },
                 Some(entry) => {
@@ -263,7 +264,6 @@ impl<V: Clone> CacheRing<V> {
                 },
             }
         }
-        drop(slots);
 
         best_slot
     }
@@ -272,11 +272,14 @@ impl<V: Clone> CacheRing<V> {
     pub fn delete(&self, key: &str) -> bool {
         let key_hash = Self::hash_key(key);
 
+        // Both tables change in one critical section (lock order slots ->
+        // index, as in `put`): with the index entry removed first and the slot
+        // cleared later, `scan_prefix` could still list a key that `contains`
+        // and `get` already denied.
+        let mut slots = self.slots.write();
         let Some(slot_idx) = self.index.write().remove(&key_hash) else {
             return false;
         };
-
-        let mut slots = self.slots.write();
         if let Some(ref entry) = slots[slot_idx] {
             if entry.key == key {
                 slots[slot_idx] = None;
